@@ -95,6 +95,16 @@ def check(rep, drv, seed, n=400, which=('encodeTag', 'encodeLength', 'toBytes', 
                 want = ('err', 'OverflowError')
             cmp_('PYOP', 'PYOP %s %d %d' % (op, a, ln), want)
 
+    # fixed corners of int.to_bytes (length 0 accepts 0 and, signed, -1)
+    for a in (-257, -256, -255, -129, -128, -127, -2, -1, 0, 1, 127, 128, 129, 255, 256, 257, 32767, 32768, -32768, -32769):
+        for ln in (0, 1, 2, 3):
+            for op, signed in (('tobytes', True), ('tobytesu', False)):
+                try:
+                    want = ('ok', list(a.to_bytes(ln, 'big', signed=signed)))
+                except OverflowError:
+                    want = ('err', 'OverflowError')
+                cmp_('PYOP', 'PYOP %s %d %d' % (op, a, ln), want)
+
     enc = benc.AbstractItemEncoder()
     if 'encodeTag' in which:
         for _ in range(n):
